@@ -228,7 +228,7 @@ theorem act_ne_enter (i : Nat) : s!"act:{i}" ≠ "enter" := by
 
 theorem raise_ne_enter (k : ExcKind) : (match k with
     | .exc => "raise:exc" | .abortTest => "raise:AbortTest" | .abortSuite => "raise:AbortSuite"
-    | .abortAll => "raise:AbortAllTests" | .interrupted => "raise:interrupted" | .baseExc => "raise:exc") ≠ "enter" := by
+    | .abortAll => "raise:AbortAllTests" | .interrupted => "raise:interrupted" | .sysExit => "raise:exc" | .baseExc => "raise:exc") ≠ "enter" := by
   cases k <;> decide
 
 theorem tra_execActs_nil (role : Nat) (u : UnitId) (i fuel : Nat) (hu : UActs P u) :
@@ -269,7 +269,7 @@ def actStep (fuel : Nat) (role : Nat) (u : UnitId) (i : Nat) : Act → M (Option
 
 def raiseName : ExcKind → String
   | .exc => "raise:exc" | .abortTest => "raise:AbortTest" | .abortSuite => "raise:AbortSuite"
-  | .abortAll => "raise:AbortAllTests" | .interrupted => "raise:interrupted" | .baseExc => "raise:exc"
+  | .abortAll => "raise:AbortAllTests" | .interrupted => "raise:interrupted" | .sysExit => "raise:exc" | .baseExc => "raise:exc"
 
 theorem execActs_succ (fuel : Nat) (role : Nat) (u : UnitId) (i : Nat) (a : Act) (rest : List Act) :
     execActs (fuel + 1) role u i (a :: rest) = (do
